@@ -264,7 +264,11 @@ func KeyspaceCmd(t *rapid.T, ns Names) []string {
 	case 22, 23:
 		return []string{"PERSIST", k(), id()}
 	case 24, 25:
-		args := []string{"JSET", k(), id(), pick(t, "path", jsetPaths)}
+		jp := jsetPaths
+		if rapid.Bool().Draw(t, "jshort") {
+			jp = jsetPaths[:4]
+		}
+		args := []string{"JSET", k(), id(), pick(t, "path", jp)}
 		vals := []string{"hello", "12", "1.50", "true", "null", "x y", `{"q":1}`, "-3e2", "é"}
 		v := pick(t, "jval", vals)
 		args = append(args, v)
@@ -280,8 +284,8 @@ func KeyspaceCmd(t *rapid.T, ns Names) []string {
 	case 26:
 		return []string{"JDEL", k(), id(), pick(t, "path", jsetPaths)}
 	case 27, 28:
-		if rapid.Bool().Draw(t, "jpath?") {
-			return []string{"JGET", k(), id(), pick(t, "path", jsetPaths)}
+		if rapid.IntRange(0, 3).Draw(t, "jpath?") > 0 {
+			return []string{"JGET", k(), id(), pick(t, "path", jsetPaths[:4])}
 		}
 		return []string{"JGET", k(), id()}
 	case 29, 30, 31:
